@@ -1067,6 +1067,237 @@ def run_c13(chk, F):
 
 
 # --------------------------------------------------------------------------- C09.R3 on arm64
+STX_SAME = ("`%s` names the same register as status and as %s operand: Rs == Rt / Rs == Rn is CONSTRAINED UNPREDICTABLE "
+            "for a store-exclusive: the store may write an unknown value, fault or do nothing")
+LDX_SAME = "`%s` loads into its own base register: the store-exclusive that follows has lost the address"
+CMP_NARROW = ("`%s` compares %d bits of a %d-bit value between the load-exclusive and the store-exclusive: a value that "
+              "differs from the expected one only in the upper half is treated as equal and overwritten")
+
+
+def _dora_block_calls(block):
+    """calls made by the direct statements of a BLOCK_EXPR (nested blocks excluded), in source order, and its lets"""
+    calls, lets = [], {}
+    for st in doraq.nodes(block):
+        if st[0] == "LET":
+            ns = doraq.nodes(st)
+            if len(ns) >= 2:
+                lets[doraq.text(ns[0])] = ns[-1]
+        stack = [st]
+        found = []
+        while stack:
+            n = stack.pop()
+            if not doraq.is_node(n):
+                continue
+            if n is not st and n[0] in ("BLOCK_EXPR", "LAMBDA_EXPR"):
+                continue
+            if n[0] in ("CALL_EXPR", "METHOD_CALL_EXPR"):
+                found.append(doraq.Call(n))
+            for c in n[2]:
+                if doraq.is_node(c):
+                    stack.append(c)
+        calls += sorted(found, key=lambda c: c.line)
+    return calls, lets
+
+
+def boots_atomics_arm64(r, F, insns):
+    """the optimizing compiler's arm64 emitters for the atomic operations, under the obligations of masm::arm64"""
+    D = F.dora()
+    f = "pkgs/boots/codegen/arm64.dora"
+    t, disp, asm = D.get(f), D.get("pkgs/boots/codegen.dora"), D.get("pkgs/boots/assembler/arm64.dora")
+    if not (r.anchor(f, t) and r.anchor("pkgs/boots/codegen.dora", disp)
+            and r.anchor("pkgs/boots/assembler/arm64.dora", asm)):
+        return
+    r.text += ("; the same obligations for the arm64 emitters that boots' instruction dispatcher calls for Op::Atomic* "
+               "(pkgs/boots/codegen/arm64.dora), plus: a store-exclusive's status register differs from its data and "
+               "address registers, and the compare of a compare-exchange loop covers the whole value")
+    # the emitters: what emit_inst calls for the Op::Atomic* opcodes
+    wanted = {}
+    for m in doraq.walk(disp):
+        if m[0] == "MATCH_ARM":
+            ns = doraq.nodes(m)
+            ops = re.findall(r"Op::(Atomic\w+)", doraq.text(ns[0])) if ns else []
+            if ops:
+                for c in doraq.calls(ns[-1]):
+                    if c.recv is not None and c.name and c.name.startswith("emit_") and c.args and doraq.text(c.args[0]) == "inst":
+                        wanted[c.name] = ops[0]
+    r.floor("atomic opcodes dispatched by boots emit_inst", len(wanted), 5)
+    params = {fn.name: [pn for pn, _t in fn.params()] for fn in doraq.functions(asm, "pkgs/boots/assembler/arm64.dora")
+              if fn.container == "AssemblerArm64"}
+    r.floor("Dora AssemblerArm64 load/store/atomic methods", sum(1 for n in params if insns.mem(n)), 60)
+    fns = {fn.name: fn for fn in doraq.functions(t, f) if fn.body is not None}
+    n_arms = n_loops = 0
+    for name, op in sorted(wanted.items()):
+        fn = fns.get(name)
+        if not r.anchor("%s::%s (Op::%s)" % (f, name, op), fn):
+            continue
+        kind = "load" if op.endswith("Load") else "store" if op.endswith("Store") else "rmw"
+        base = "%s::%s" % (f, fn.qual)
+        ms = [n for n in doraq.walk(fn.body) if n[0] == "MATCH_EXPR" and "type" in doraq.text(doraq.nodes(n)[0])]
+        if not r.anchor("%s: match over the value type" % name, ms):
+            continue
+        top_calls, top_lets = _dora_block_calls(fn.body)
+        addrs = set()
+        for (ptxt, pat, body) in doraq.direct_match_arms(ms[0]):
+            tys = [x for x in re.findall(r"Type::(\w+)", ptxt)]
+            if not tys or body[0] != "BLOCK_EXPR":
+                continue
+            for ty in tys:
+                if ty not in DORA_TYPES:
+                    r.violation("%s:%s:unknown-operand-type" % (base, ty), "no width known for Type::%s" % ty, fn.where())
+                    continue
+                want_bits = DORA_TYPES[ty][0]
+                n_arms += 1
+                key0 = "%s:%s" % (base, ty)
+                blocks = [b for b in doraq.walk(body) if b[0] == "BLOCK_EXPR"]
+                emitted = []
+                for blk in blocks:
+                    calls, lets = _dora_block_calls(blk)
+                    lets = dict(top_lets, **lets)
+
+                    def reg(node):
+                        """register operand as written, looking through `let x = REG;` aliases"""
+                        tx = doraq.text(node)
+                        seen = 0
+                        while tx in lets and lets[tx][0] == "PATH_EXPR" and seen < 4:
+                            tx = doraq.text(lets[tx])
+                            seen += 1
+                        return tx
+
+                    acs = [c for c in calls if c.callee.startswith("self.asm.")]
+                    mems = []
+                    for c in acs:
+                        m = insns.mem(c.name)
+                        if not m:
+                            continue
+                        ps = params.get(c.name)
+                        if ps is None or len(ps) != len(c.args):
+                            r.violation("%s:%s:unknown-assembler-method" % (key0, c.name),
+                                        "no AssemblerArm64 method `%s` with %d parameters" % (c.name, len(c.args)),
+                                        "%s:%d" % (f, c.line))
+                            continue
+                        ai = [i for i, q in enumerate(ps) if q in ("address", "addr", "rn")]
+                        regs = [reg(a) for a in c.args]
+                        addr = regs[ai[0]] if ai else None
+                        mems.append((c, m, ps, regs, addr))
+                        emitted.append(c.name)
+                        addrs.add(addr)
+                    for (c, m, ps, regs, addr) in mems:
+                        key = "%s:%s" % (key0, c.name)
+                        where = "%s:%d" % (f, c.line)
+                        r.instance(key, sample={"fn": name, "type": ty, "insn": c.name, "operands": regs})
+                        if m["bits"] != want_bits:
+                            r.violation(key + ":width-%d-for-%s" % (m["bits"], ty),
+                                        "`%s` accesses %d bits in the Type::%s arm of %s" % (c.name, m["bits"], ty, name), where)
+                        if kind == "load":
+                            if m["kind"] != "ldar":
+                                r.violation(key + ":load-not-acquire", "an atomic load must be ldar*, `%s` is %s" % (
+                                    c.name, m["kind"]), where)
+                        elif kind == "store":
+                            if m["kind"] != "stlr":
+                                r.violation(key + ":store-not-release", "an atomic store must be stlr*, `%s` is %s" % (
+                                    c.name, m["kind"]), where)
+                        elif m["kind"] == "lse":
+                            if not (m["acq"] and m["rel"]):
+                                r.violation(key + ":lse-without-acquire-release",
+                                            "`%s` is the %s form of %s: atomic but not ordered with the surrounding "
+                                            "accesses, while the baseline compiler emits the `al` form for the same "
+                                            "operation; the `al` form is required" % (
+                                                c.name, "relaxed" if not (m["acq"] or m["rel"]) else
+                                                "acquire-only" if m["acq"] else "release-only", m["base"]), where)
+                        elif m["kind"] == "ldx":
+                            if not m["acq"]:
+                                r.violation(key + ":exclusive-load-without-acquire", "ldaxr* is required", where)
+                        elif m["kind"] == "stx":
+                            if not m["rel"]:
+                                r.violation(key + ":exclusive-store-without-release", "stlxr* is required", where)
+                        else:
+                            r.violation(key + ":plain-access-in-atomic-routine",
+                                        "`%s` is an ordinary %s inside %s" % (c.name, m["kind"], name), where)
+                    if kind != "rmw":
+                        continue
+                    ldxs = [mm for mm in mems if mm[1]["kind"] == "ldx"]
+                    stxs = [mm for mm in mems if mm[1]["kind"] == "stx"]
+                    if ldxs and not stxs:
+                        r.violation(key0 + ":load-exclusive-without-store-exclusive",
+                                    "the exclusive monitor is never consumed", "%s:%d" % (f, ldxs[0][0].line))
+                    for (c, m, ps, regs, addr) in stxs:
+                        n_loops += 1
+                        key = "%s:%s" % (key0, c.name)
+                        where = "%s:%d" % (f, c.line)
+                        status = regs[ps.index("status")] if "status" in ps else regs[0]
+                        data = regs[ps.index("src")] if "src" in ps else regs[1]
+                        lds = [l for l in ldxs if l[4] == addr and l[0].line < c.line]
+                        r.instance(key + ":exclusive-loop", sample={"store": c.name, "status": status, "data": data,
+                                                                    "address": addr, "loads": [l[0].name for l in lds]})
+                        if status == data:
+                            r.violation(key + ":status-register-is-data-register", STX_SAME % (c.name, "data"), where)
+                        if status == addr:
+                            r.violation(key + ":status-register-is-address-register", STX_SAME % (c.name, "address"), where)
+                        if not lds:
+                            r.violation(key + ":no-dominating-load-exclusive",
+                                        "`%s` is not preceded in its block by a load-exclusive of the same address" % c.name, where)
+                            continue
+                        for l in lds:
+                            li = l[2].index("rt") if "rt" in l[2] else 0
+                            if l[3][li] == l[4]:
+                                r.violation("%s:%s:loads-into-address-register" % (key0, l[0].name), LDX_SAME % l[0].name,
+                                            "%s:%d" % (f, l[0].line))
+                        for y in acs:
+                            if mnemonic(y.name) == "cmp" and lds[0][0].line < y.line < c.line:
+                                w = insns.width(y.name)
+                                r.instance("%s:%s:compare-width" % (key0, y.name))
+                                if w is not None and w < want_bits:
+                                    r.violation("%s:%s:compare-narrower-than-value" % (key0, y.name),
+                                                CMP_NARROW % (y.name, w, want_bits), "%s:%d" % (f, y.line))
+                        ok = False
+                        why = "no cbnz on the status register after the store-exclusive"
+                        for y in acs:
+                            if mnemonic(y.name) not in ("cbnz", "cbz", "tbnz", "tbz") or y.line < c.line or not y.args:
+                                continue
+                            if reg(y.args[0]) != status:
+                                continue
+                            if mnemonic(y.name) != "cbnz":
+                                why = "`%s` on the status register: the retry must be taken when the store FAILED " \
+                                      "(status != 0)" % y.name
+                                continue
+                            lbl = doraq.text(y.args[-1])
+                            init = lets.get(lbl)
+                            bound = init is not None and doraq.text(init).endswith(".create_and_bind_label()")
+                            if not bound:
+                                why = "the retry branch does not target a label bound with create_and_bind_label"
+                                continue
+                            if init[1] < min(l[0].line for l in lds):
+                                ok = True
+                            else:
+                                why = "the retry label is bound after the load-exclusive (the loop would not reload)"
+                        if not ok:
+                            r.violation(key + ":status-not-retried",
+                                        "the store-exclusive's status is not tested by a backward branch to the loop "
+                                        "head: %s; a failed store is silently dropped" % why, where)
+                if kind == "rmw" and not any((insns.mem(e) or {}).get("kind") in ("lse", "stx") for e in emitted):
+                    r.violation(key0 + ":no-read-modify-write", "neither an LSE instruction nor a store-exclusive", fn.where())
+                if not emitted:
+                    r.violation(key0 + ":no-atomic-instruction", "the Type::%s arm of %s emits no memory instruction" % (
+                        ty, name), fn.where())
+        # one address register per emitter, set up from the object operand before the type dispatch
+        r.instance("%s:single-address-register" % base, sample={"address_registers": sorted(a or "?" for a in addrs)})
+        if len(addrs) != 1 or None in addrs:
+            r.violation("%s:memory-ops-address-different-registers" % base,
+                        "the memory instructions of %s address %s: they do not all operate on the same location" % (
+                            name, sorted(a or "?" for a in addrs)), fn.where())
+        else:
+            a0 = list(addrs)[0]
+            setup = [c for c in top_calls if c.callee.startswith("self.asm.") and c.args and doraq.text(c.args[0]) == a0
+                     and c.line < ms[0][1]]
+            is_input = a0 in top_lets
+            if not setup and not is_input:
+                r.violation("%s:address-register-not-set-up" % base,
+                            "`%s` is neither an operand register of the instruction nor written before the type dispatch"
+                            % a0, fn.where())
+    r.floor("boots arm64 (atomic emitter, type) arms", n_arms, 10)
+    r.floor("boots arm64 exclusive loops", n_loops, 6)
+
+
 def run_c09(chk, F):
     r = _rule(chk, "C09.R3", "atomic read-modify-write emitters are indivisible and ordered",
               "arm64: every *_synchronized emitter of masm::arm64 uses only acquire+release forms on the atomic "
@@ -1157,6 +1388,13 @@ def run_c09(chk, F):
                                 "operation nor ordered" % (n2, m["kind"], nm), x.where())
         if kind != "rmw":
             continue
+        # the value comparison of a compare-exchange loop covers the whole value
+        for (y, n3) in ac:
+            if mnemonic(n3) == "cmp" and want_bits is not None:
+                w = insns.width(n3)
+                r.instance("%s:%s:compare-width" % (p, n3))
+                if w is not None and w < want_bits:
+                    r.violation("%s:%s:compare-narrower-than-value" % (p, n3), CMP_NARROW % (n3, w, want_bits), y.where())
         # exclusive loops: every store-exclusive is paired with a dominating load-exclusive on the same address, its
         # status register is tested by a cbnz that branches back to a label bound before the load
         stxs = [mm for mm in mems if mm[2]["kind"] == "stx"]
@@ -1179,6 +1417,19 @@ def run_c09(chk, F):
                             "`%s` is not preceded on every path by a load-exclusive of the same address: the store "
                             "has no monitor to succeed against" % n2, x.where())
                 continue
+            # ISA fact (one line): for STXR/STLXR Ws, Wt, [Xn], Rs == Rt or Rs == Rn is CONSTRAINED UNPREDICTABLE
+            # (Arm ARM C6.2 STXR); a load-exclusive whose Rt is its own base register destroys the address of the store
+            di = ps.index("src") if "src" in ps else 2
+            data = ds[di] if di < len(ds) else None
+            r.instance(key + ":status-register-distinct")
+            if status is not None and status == data:
+                r.violation(key + ":status-register-is-data-register", STX_SAME % (n2, "data"), x.where())
+            if status is not None and status == addr:
+                r.violation(key + ":status-register-is-address-register", STX_SAME % (n2, "address"), x.where())
+            for l in lds:
+                li = l[5].index("rt") if "rt" in l[5] else 1
+                if li < len(l[3]) and l[3][li] == l[4]:
+                    r.violation("%s:%s:loads-into-address-register" % (p, l[1]), LDX_SAME % l[1], l[0].where())
             back = None
             why = "no cbnz on the status register after the store-exclusive"
             for (y, n3) in ac:
@@ -1208,6 +1459,7 @@ def run_c09(chk, F):
     r.floor("arm64 masm RMW routines", n_rmw, 6)
     r.floor("arm64 masm synchronized load/store routines", n_ls, 6)
     r.floor("arm64 exclusive loops", n_loops, 6)
+    boots_atomics_arm64(r, F, insns)
 
 
 # --------------------------------------------------------------------------- C10.R7
